@@ -133,6 +133,9 @@ func typesAllowedBy(r *irRule, v string) ([]string, bool) {
 	return out, known
 }
 
+// `$a, $b := ...` / `$tmp := ...` at the start of a statement of a pattern
+var declVarRe = regexp.MustCompile(`(?:^|[;{]\s*)((?:\$[A-Za-z_][A-Za-z0-9_]*\s*,\s*)*\$[A-Za-z_][A-Za-z0-9_]*)\s*:=`)
+
 var qualRe = regexp.MustCompile(`(^|[^A-Za-z0-9_.$])([a-z][A-Za-z0-9_]*)\.[A-Z]`)
 
 // name -> import path of the packages the probe prelude imports (the packages rule fixes refer to)
@@ -488,6 +491,23 @@ func init() {
 					}
 					c.direct = append(c.direct, &directResult{Name: pn + "/fix-keeps-everything-the-wildcards-matched", OK: dropped == "",
 						Detail: fmt.Sprintf("pattern %q matches arbitrary code with %s, the fix %q replaces the whole matched range and does not reproduce it: that code is deleted", pat, dropped, r.Suggest)})
+					// (2b) a variable declared by the matched statements is still declared after the fix: later code may use it
+					lostDecl := ""
+					for _, m := range declVarRe.FindAllStringSubmatch(pat, -1) {
+						for _, v := range patVarRe.FindAllStringSubmatch(m[1], -1) {
+							if v[1] == "_" {
+								continue
+							}
+							re := regexp.MustCompile(`(\$` + v[1] + `\b[^;{}]*:=)|(var\s+\$` + v[1] + `\b)`)
+							if !re.MatchString(r.Suggest) {
+								lostDecl = "$" + v[1]
+							}
+						}
+					}
+					if pc == "stmt" {
+						c.direct = append(c.direct, &directResult{Name: pn + "/fix-keeps-the-declarations-of-the-matched-statements", OK: lostDecl == "",
+							Detail: fmt.Sprintf("pattern %q declares %s, the fix %q replaces the whole matched range and does not declare it: code after the match that uses the variable no longer compiles", pat, lostDecl, r.Suggest)})
+					}
 					// (3) type preservation for expression rules
 					if pc != "expr" || sc != "expr" || strings.Contains(pat, "$*") {
 						skipped = append(skipped, pn)
